@@ -224,3 +224,9 @@ pub proof fn lemma_f_from_zero(s: Seq<u8>)
 }
 
 } // verus!
+verus! {
+/// `s` with the range a..b replaced by `c`
+pub open spec fn splice(s: Seq<u8>, a: int, b: int, c: Seq<u8>) -> Seq<u8> {
+    s.subrange(0, a) + c + s.subrange(b, s.len() as int)
+}
+} // verus!
